@@ -2,6 +2,7 @@ import LJT.Ops.C03
 import LJT.Ops.C07
 import LJT.Model.T81Enc
 import LJT.Model.DCT
+import LJT.Model.ProgHuff
 namespace LJT.Ops
 open LJT.T81 LJT.T81Enc
 
@@ -9,6 +10,71 @@ def c04Coef (seed : Nat) (ci by_ bx k : Nat) : Int :=
   let h := c07Mix ((seed * 1000003 + ci * 7919 + by_ * 104729 + bx * 611 + k) % 18446744073709551616)
   let r : Int := ((h % 41 : Nat) : Int) - 20
   if k > 20 && (h >>> 8) % 4 != 0 then 0 else r
+
+/-- `c03_coef` of the harness for 8-bit precision: every kind -/
+def c03CoefK (seed kind : Nat) (ci by_ bx k : Nat) : Int :=
+  let h := c07Mix ((seed * 1000003 + ci * 7919 + by_ * 104729 + bx * 611 + k) % 18446744073709551616)
+  match kind with
+  | 0 => if k > 20 && (h >>> 8) % 4 != 0 then 0 else ((h % 41 : Nat) : Int) - 20
+  | 1 => if k == 0 then ((seed % 200 : Nat) : Int) - 100 else 0
+  | 2 => if k == 0 then (if h % 2 == 1 then 1016 else -1016)
+         else if (h >>> 3) % 5 == 0 then (if (h >>> 1) % 2 == 1 then 1023 else -1023) else 0
+  | 3 => ((h % 255 : Nat) : Int) - 127
+  | 4 => if k == 63 then (if h % 2 == 1 then 1 else -3) else if k == 0 then ((h % 9 : Nat) : Int) - 4 else 0
+  | 5 => 0
+  | 7 => if k == 0 then ((h % 9 : Nat) : Int) - 4 else (if h % 2 == 1 then 1 else -1) * (8 + (((h >>> 3) % 100 : Nat) : Int))
+  | _ => if (h >>> 20) % 97 != 0 then (if k == 0 then 5 else 0) else (((h >>> 4) % 7 : Nat) : Int) - 3
+
+/-- `c03_script` of the harness (progressive branch): the seeded generator of valid progressive scan scripts -/
+def c03ScriptProg (seed nc : Nat) : List (List Nat × Nat × Nat × Nat × Nat) := Id.run do
+  let mut s := seed
+  let rnd := fun (s : Nat) (m : Nat) => let s' := c07Mix s; (s', s' % m)
+  let mut out : Array (List Nat × Nat × Nat × Nat × Nat) := #[]
+  let (s1, dcal) := rnd s 3; s := s1
+  let (s2, dcinter) := rnd s 2; s := s2
+  let all := List.range nc
+  if dcinter != 0 && nc ≤ 4 then out := out.push (all, 0, 0, 0, dcal)
+  else for ci in all do out := out.push ([ci], 0, 0, 0, dcal)
+  -- AC bands per component
+  let mut bands : Array (Array (Nat × Nat × Nat)) := #[]
+  for _ci in all do
+    let mut k := 1
+    let mut bs : Array (Nat × Nat × Nat) := #[]
+    for _ in [0:8] do
+      if k ≤ 63 && bs.size < 8 then
+        let mut e := 63
+        if bs.size != 7 then
+          let (s', r) := rnd s (64 - k); s := s'
+          e := k + r
+        let (s', r3) := rnd s 3; s := s'
+        if r3 == 0 then e := 63
+        let (s'', al) := rnd s 3; s := s''
+        bs := bs.push (k, e, al)
+        k := e + 1
+    bands := bands.push bs
+  for round in [0:4] do
+    let start := out.size
+    if round ≥ 1 && dcal ≥ round then
+      let (s', r) := rnd s 2; s := s'
+      if r != 0 && nc ≤ 4 then out := out.push (all, 0, 0, dcal - round + 1, dcal - round)
+      else for ci in all do out := out.push ([ci], 0, 0, dcal - round + 1, dcal - round)
+    for ci in all do
+      for (bsk, bek, bal) in (bands.getD ci #[]) do
+        if bal ≥ round then
+          let al := bal - round
+          out := out.push ([ci], bsk, bek, (if round == 0 then 0 else al + 1), al)
+    -- shuffle the scans of this round
+    let n := out.size
+    if n > 0 then
+      for d in [0:n] do
+        let i := n - 1 - d
+        if i > start then
+          let (s', r) := rnd s (i - start + 1); s := s'
+          let j := start + r
+          let a := out.getD i ([], 0, 0, 0, 0)
+          let b := out.getD j ([], 0, 0, 0, 0)
+          out := (out.setIfInBounds i b).setIfInBounds j a
+  return out.toList
 
 def c04Quant (q16 : Bool) (cls k : Nat) : Nat :=
   if q16 then 1 + (k * 977 + cls * 31) % 40000 else 1 + (k * 7 + cls * 3) % 200
@@ -49,6 +115,18 @@ def opC04 : List String → Option String
     let qs := [LJT.DCT.scaleTable Gen.Src.std_luminance_quant_tbl sc true, LJT.DCT.scaleTable Gen.Src.std_chrominance_quant_tbl sc true]
     let o : Opts := { q16 := false, joinTables := false, fill := false, driPos := 2, split := false, tblShift := 0, ri := ri, jfif := true, ljDummies := true }
     match encode o w h comps qs (c04Coef seed) with
+    | none => some "unencodable"
+    | some bs => some s!"{bs.length} {fnv bs}"
+  -- progfile seed w h ri hs vs nc kind sseed : the whole progressive file libjpeg-turbo must write (jcphuff.c events, optimal tables per scan
+  -- from jpeg_gen_optimal_table, per-scan DHT/SOS layout of jcmarker.c); sseed 0 = jpeg_simple_progression, else the seeded script
+  | ["progfile", seed, w, h, ri, hs, vs, nc, kind, sseed] => do
+    let seed ← nat? seed; let w ← nat? w; let h ← nat? h; let ri ← nat? ri; let hs ← nat? hs; let vs ← nat? vs; let nc ← nat? nc
+    let kind ← nat? kind; let sseed ← nat? sseed
+    let comps := if nc == 1 then [(1, 1)] else [(hs, vs), (1, 1), (1, 1)]
+    let sc := LJT.DCT.qualityScaling 75
+    let qs := [LJT.DCT.scaleTable Gen.Src.std_luminance_quant_tbl sc true, LJT.DCT.scaleTable Gen.Src.std_chrominance_quant_tbl sc true]
+    let script := if sseed == 0 then LJT.ProgHuff.simpleProgression nc else c03ScriptProg sseed nc
+    match LJT.ProgHuff.encodeFile w h comps qs ri script (c03CoefK seed kind) with
     | none => some "unencodable"
     | some bs => some s!"{bs.length} {fnv bs}"
   | ["susp", _, _, hex] => do
